@@ -288,6 +288,7 @@ class HeapMixin:
         if seq.elem == "pair":
             return (mk_str(Pair.fst(el), "bytes"), mk_str(Pair.snd(el), "bytes"))
         if seq.elem == "int":
+            self.ctx.add_key(el)
             return mk_int(el)
         if seq.elem == "str":
             return mk_str(el, "str")
@@ -415,9 +416,15 @@ class HeapMixin:
     def contains(self, container, item, fr):
         ctx = self.ctx
         if isinstance(container, SymOpt):
+            if fr.spec:
+                r = self.contains(container.value, item, fr)
+                rz = z3.BoolVal(r) if isinstance(r, bool) else r
+                return z3.And(z3.Not(container.is_none), rz)
             if ctx.branch(container.is_none, f"isNone@{fr.line}"):
                 raise mk_exc(TypeError, "argument of type 'NoneType' is not iterable", where=fr.where())
             container = container.value
+        if container is None and fr.spec:
+            return False
         if isinstance(container, (PSet, tuple)) or (isinstance(container, PList) and container.sym is None):
             items = container.items if not isinstance(container, tuple) else container
             rs = [ops.eq(ctx, item, x) for x in items]
